@@ -39,10 +39,11 @@ DoRollback(st, t) ==
    LET mine == {r \in st.pend : r[1] = t}
        keep == {q \in DOMAIN st.allocs : st.allocs[q] # t}
        back == {r \in mine : r[3] # 0}
-       \* one mark per freed run: the record of the run's first page carries it
-   IN [st EXCEPT !.pend = @ \ mine,
-                 !.allocs = [q \in keep \cup {r[2] : r \in back} |->
-                               IF q \in keep THEN st.allocs[q] ELSE (CHOOSE r \in back : r[2] = q)[3]]]
+   IN IF mine = {} THEN st          \* shared.go:91-94: nothing pending for t -> nothing is touched (not even t's marks)
+      ELSE [st EXCEPT !.pend = @ \ mine,
+                      \* every page of a freed run gets the run's mark back (overwriting a mark it may carry itself)
+                      !.allocs = [q \in keep \cup {r[2] : r \in back} |->
+                                    IF q \in {r[2] : r \in back} THEN (CHOOSE r \in back : r[2] = q)[3] ELSE st.allocs[q]]]
 \* --- readers
 DoAddReader(st, t) == [st EXCEPT !.readers = Inc(@, t)]
 DoRemoveReader(st, t) == [st EXCEPT !.readers = Dec(@, t)]
@@ -74,7 +75,7 @@ flvars == <<st, wtx, hist>>
 Pages == 2..MaxPage
 NR(s) == LET RECURSIVE sum(_) sum(S) == IF S = {} THEN 0 ELSE LET t == CHOOSE x \in S : TRUE IN s.readers[t] + sum(S \ {t}) IN sum(DOMAIN s.readers)
 
-FLInit == \E ids \in SUBSET Pages : st = St0(ids) /\ wtx = 1 /\ hist = <<>>
+FLInit == \E ids \in SUBSET Pages : st = St0(ids) /\ wtx = 1 /\ hist = <<[op |-> "Init", ids |-> ids]>>
 Log(e) == hist' = Append(hist, e)
 \* the current writer allocates / frees; NextTx = commit (the next writer has the next id)
 Allocate(n) == \E s \in {0} \cup Pages : /\ AllocOK(st, n, s) /\ st' = DoAlloc(st, wtx, n, s) /\ wtx' = wtx
@@ -107,4 +108,5 @@ ReleaseNeverUnsafe == [][(hist' # hist /\ hist'[Len(hist')].op = "Release") => \
 \* Allocate hands out only free pages, never 0 / 1
 AllocSound == [][\A p \in st.free \ st'.free : p >= 2]_flvars
 EmitFL(d) == (TLCGet("level") < d) \/ PrintT(<<"BEH", TLCGet("stats").traces, ToJson(hist)>>)
+EmitInv == EmitFL(40)
 =============================================================================
